@@ -153,6 +153,8 @@ impl ParsingSource for LspParsingSource {
 
 struct ShutdownManager {
     handlers: HashMap<usize, Sender<()>>,
+    /// Have the handlers been invoked? Whoever registers a handler after that is told right away
+    shutting_down: bool,
 }
 
 static HANDLER_ID: AtomicUsize = AtomicUsize::new(0);
@@ -183,6 +185,7 @@ impl ShutdownManager {
     fn new() -> Self {
         Self {
             handlers: HashMap::new(),
+            shutting_down: false,
         }
     }
 }
@@ -217,11 +220,14 @@ impl LspContext {
     pub fn add_shutdown_handler(&mut self) -> ShutdownReceiverHandle {
         let (s, r) = crossbeam_channel::bounded(1);
         let handler_id = HANDLER_ID.fetch_add(1, Ordering::Relaxed);
-        self.shutdown_manager
-            .lock()
-            .unwrap()
-            .handlers
-            .insert(handler_id, s);
+        {
+            let mut mgr = self.shutdown_manager.lock().unwrap();
+            if mgr.shutting_down {
+                // The channel has room for one message, so this does not block
+                let _ = s.send(());
+            }
+            mgr.handlers.insert(handler_id, s);
+        }
         ShutdownReceiverHandle {
             manager: self.shutdown_manager.clone(),
             receiver: r,
@@ -233,6 +239,7 @@ impl LspContext {
         // Grab the handlers and unlock the shutdown manager
         let handlers = {
             let mut mgr = self.shutdown_manager.lock().unwrap();
+            mgr.shutting_down = true;
             std::mem::take(&mut mgr.handlers)
         };
         for sender in handlers.values() {
